@@ -223,6 +223,7 @@ def c06(ctx):
 
 def c11(ctx):
     deep_nesting(ctx)
+    pool_stress_race(ctx)   # "never fails" includes the unrecoverable failures: concurrent first uses of new types under the race detector
     printer_panic(ctx)
     printer_slice(ctx, "dir")
     printer_rnd(ctx)
@@ -364,6 +365,7 @@ def c12(ctx):
     printer_slice(ctx, "smoke")
     printer_slice(ctx, tier(ctx, "qcls", "cls"))
     printer_rnd(ctx)
+    builder_histories(ctx)   # incl. foreign printing calls between a builder's operations
     # what a type prints as depends on the registry AT THAT MOMENT, not on what it was when the printer in hand was
     # made: registrations happen between prints in every behaviour of MCRegistry (the probes warm the pool)
     registry_model(ctx)
